@@ -3,6 +3,7 @@ import Rare.Proofs.C04Buf
 import Rare.Proofs.C04Tie
 import Rare.Proofs.C04More
 import Rare.Proofs.C04Held
+import Rare.Proofs.C04Order
 import Rare.Proofs.Batcher
 import Rare.Model.C04Sync
 import Rare.Gen.C04
@@ -598,5 +599,19 @@ example : readView (({ Imm.init 2 ⟨[99, 10], []⟩ with buf := [97, 10], offse
 example : ((Imm.scanAll 9 1 (Imm.init 2 ⟨[97, 10, 98, 98, 98, 10], []⟩)).1.map (·.1)) = [⟨0, 0, 1⟩] ∧
     readView (Imm.scanAll 9 2 (Imm.init 2 ⟨[97, 10, 98, 98, 98, 10], []⟩)).2.2.arrays ⟨0, 0, 1⟩ = [97] ∧
     (Imm.scanAll 9 2 (Imm.init 2 ⟨[97, 10, 98, 98, 98, 10], []⟩)).2.2.arrays.map (·.length) = [2, 2, 4] := by decide
+
+/-- The slices the immediate scanner hands out never overlap one another: in hand-out order every slice lies in a
+    later backing array than an earlier one, or in the same array at or after the earlier one's end; every slice is
+    a proper range (`start ≤ stop`).  So a caller that edits one line in place cannot change another line it holds,
+    and no byte is ever handed out twice.  From the initial state of every buffer size (0 included), for every
+    chunking / stall / fault script, every number of calls and every fuel. -/
+theorem imm_slices_ordered_disjoint (bufSize : Nat) (data : Bytes) (script : List Step) (fuel k : Nat) :
+    List.Pairwise (fun a b : View × Bytes =>
+        a.1.arr < b.1.arr ∨ (a.1.arr = b.1.arr ∧ a.1.stop ≤ b.1.start))
+      (Imm.scanAll fuel k (Imm.init bufSize ⟨data, script⟩)).1 ∧
+    ∀ vb ∈ (Imm.scanAll fuel k (Imm.init bufSize ⟨data, script⟩)).1, vb.1.start ≤ vb.1.stop :=
+  ⟨(scanAll_sorted fuel k _).2, fun vb h => ((scanAll_sorted fuel k _).1 vb h).2⟩
+
+example : (Imm.run 4 [97, 10, 98, 10, 99, 99, 99, 99, 10] []).1.map (·.1) = [⟨0, 0, 1⟩, ⟨0, 2, 3⟩, ⟨2, 0, 4⟩] := by decide
 
 end Rare.C04
